@@ -116,6 +116,7 @@ def check_query(sub, st, pos, q, E, prods, hashes, ev=None, render=True):
     for d in MODEL:
         if d not in sigs: continue
         eng = st['eng'][d]
+        if any(base is None or key not in base for key in sigs[d]): sub.count(d + ':queries_disagreeing_otherwise_than_sqlite')
         for key, (sig, m, rid, M) in sorted(sigs[d].items(), key=lambda kv: (kv[1][0], str(kv[0]))):
             if base is not None and key in base:
                 sub.count(d + ':same_failure_as_sqlite(C01)'); continue
@@ -379,7 +380,8 @@ def run(ctx):
                       disagreed_with_python=c.get(d + ':disagreed_with_python', 0), refused_by_dialect_model=c.get(d + ':refused_by_dialect_model', 0),
                       refused_by_dialect_model_where_python_raises_too=c.get(d + ':refused_by_dialect_model_where_python_raises_too', 0),
                       not_executable=c.get(d + ':not_executable', 0), row_comparisons=c.get(d + ':row_comparisons', 0),
-                      dialect_specific_disagreements=c.get(d + ':dialect_specific_disagreement', 0),
+                      dialect_specific_failing_rows=c.get(d + ':dialect_specific_disagreement', 0),
+                      queries_disagreeing_otherwise_than_sqlite=c.get(d + ':queries_disagreeing_otherwise_than_sqlite', 0),
                       same_failure_as_sqlite=c.get(d + ':same_failure_as_sqlite(C01)', 0) + c.get(d + ':same_signature_as_sqlite(C01)', 0),
                       reattributed_above_a_shared_failure=c.get(d + ':reattributed_above_a_shared_failure', 0),
                       decided_share_percent=int(100.0 * c.get(d + ':judged', 0) / max(1, q - ref)),
